@@ -262,8 +262,11 @@ func (r *runner) submit(g string) {
 	if g == "" {
 		rid = fmt.Sprintf("svc.par.%d", c)
 	}
+	if c%8 == 3 && g != "" {
+		rid = fmt.Sprintf("svc.%s.first", g)
+	}
 	switch c % 4 {
-	case 1:
+	case 1, 3:
 		if err := r.s.With(rid, func(res.Resource) { r.body(c, g, nested) }); err != nil {
 			r.violation("with-error: With reported an error for a resource with a matching handler: " + err.Error())
 		}
@@ -284,6 +287,15 @@ func (r *runner) submit(g string) {
 			r.violation("with-nomatch-ran: callback of With on an unmatched resource id was executed")
 		}); err == nil {
 			r.violation("with-nomatch-no-error: With on an unmatched resource id returned nil")
+		}
+		// ... also for ids that merely START with the service name or miss the separator
+		for _, id := range []string{fmt.Sprintf("svc_item.%d.%s", c, g), fmt.Sprintf("svcitem.%d.%s", c, g), "svc", "sv.par.1", fmt.Sprintf("svc.item.%d", c)} {
+			id := id
+			if err := r.s.With(id, func(res.Resource) {
+				r.violation("with-nomatch-ran: callback of With on the unmatched resource id " + id + " was executed")
+			}); err == nil {
+				r.violation("with-nomatch-no-error: With on the unmatched resource id " + id + " returned nil")
+			}
 		}
 	}
 }
@@ -354,6 +366,15 @@ func (r *runner) newService(c *conn) *res.Service {
 		} else {
 			s.SetLogger(logger.NewMemLogger().SetTrace(true))
 		}
+	} else if r.sc.Kind == "d1" || r.sc.Kind == "d5" || (r.sc.Kind == "random" && r.sc.Shutdown == "during" && r.sc.Seed%2 == 0) {
+		// a logger, and an error hook that re-enters the service the way an application reporting errors over
+		// the connection would: neither may ever be called with the service mutex held
+		s.SetLogger(logger.NewMemLogger())
+		s.SetOnError(func(sv *res.Service, msg string) {
+			if nc := sv.Conn(); nc != nil {
+				nc.Publish("errors.svc", []byte(msg))
+			}
+		})
 	} else {
 		s.SetLogger(nil)
 	}
@@ -368,6 +389,8 @@ func (r *runner) newService(c *conn) *res.Service {
 	sub := res.NewMux("")
 	s.Mount("sub", sub)
 	s.Handle("sub.dflt.$k", res.GetResource(func(q res.GetRequest) { q.NotFound() }))
+	// a group template that is a single ${tag} naming the FIRST token of the pattern
+	s.Handle("$g.first", res.Group("${g}"), res.GetResource(func(q res.GetRequest) { q.NotFound() }))
 	s.Handle("par.$c", res.Parallel(true), res.GetResource(func(q res.GetRequest) {
 		c, _ := strconv.Atoi(q.PathParam("c"))
 		r.body(c, "", false)
